@@ -19,9 +19,12 @@
           PerformLayout mode every run that does not panic covers all children.  Hence `single_pass_layouts_quiet_all_trees`,
           `history_layouts_quiet_all_trees` for every tree whose grid containers cannot panic (`GridCalm`; every tree
           without grid containers is `GridCalm`).  `GridCalm` has a DECIDABLE sufficient condition (`gridCalmB`,
-          `gridCalm_of_gridCalmB`): no `auto-fill`/`auto-fit` repetition, and the setup — run once — does not panic and
-          leaves every item's track indexes and every absolutely positioned child's lines inside the track vectors
-          (`grid_noPanic_of_gridSafeB`: then NO run panics, whatever the input and the children's answers).
+          `gridCalm_of_gridCalmB`): no `auto-fill`/`auto-fit` repetition, and the setup — run once — does not panic,
+          leaves every item's track indexes inside the track vectors (which have one entry per line and per track), and
+          the i16 arithmetic resolving every absolutely positioned child's lines does not overflow
+          (`grid_noPanic_of_gridSafeB`: then NO run panics, whatever the input and the children's answers).  That an
+          absolutely positioned child's lines lie inside the track vectors is no longer a condition: since the repair
+          of `c06-abs-grid-implicit-tracks` a line outside the implicit grid is `None` (`try_into_track_vec_index`).
 
   Helper lemmas: Lemmas/EvalGrid.lean (program predicates: `MeasB`, `GMeas`, …), EvalGridItem.lean (the contribution
   caches as a potential), EvalGridSizing.lean (one run of track sizing), EvalGridStages.lean (the program cut into stages),
@@ -292,10 +295,14 @@ example : GridCalm (EvalFlex.exA : STree α) := NoGrid_GridCalm _ EvalFlex.exA_N
 After its setup (explicit grid, size estimate, placement, track initialisation, track indexes: no child call) the only
 panics of `compute_grid_layout` are slice indexings into the two track vectors — by the grid items' track indexes
 (`axis_tracks[track_index]` in the span-1 path of track sizing, `rows[..].offset` / `columns[..].offset` when positioning)
-and by the resolved lines of absolutely positioned children — and the `assert!`s of `into_track_vec_index` for the
-latter.  Track sizing keeps the lengths of the track vectors and the items' indexes, so these are in range throughout if
-they are in range in the setup's result; and without an `auto-fill`/`auto-fit` repetition the setup does not depend on the
-input.  `gridSafeB style cs` runs the setup once and checks exactly this (Lemmas/EvalGridSafe*.lean). -/
+and by the resolved lines of absolutely positioned children — and the checked i16 arithmetic on the lines of the latter
+(`into_origin_zero_line`, `OriginZeroLine ± u16`, the casts of `try_into_track_vec_index`).  Track sizing keeps the lengths
+of the track vectors and the items' indexes, so the items' indexes are in range throughout if they are in range in the
+setup's result; a resolved line of an absolutely positioned child is `None` or the index of a line of the implicit grid
+(`try_into_track_vec_index`; the `assert!`s of `into_track_vec_index` are no longer reachable from there), hence in range
+when the track vectors have an entry per line and per track; and without an `auto-fill`/`auto-fit` repetition the setup
+does not depend on the input.  `gridSafeB style cs` runs the setup once and checks exactly this: items in range, vector
+lengths, no overflow when the absolutely positioned children's lines are resolved (Lemmas/EvalGridSafe*.lean). -/
 
 /-- **grid_noPanic_of_gridSafeB**: a grid container that passes the executable check never panics, whatever its input and
 whatever its children answer -/
@@ -314,11 +321,14 @@ theorem grid_PLCovers_of_gridSafeB (style : Style α) (cs : List (Style α)) (h 
 `GridCalm` -/
 theorem gridCalm_of_gridCalmB (t : STree α) (h : gridCalmB t = true) : GridCalm t := gridCalmB_sound t h
 
-/-- the witness of `not_grid_PLCovers` fails the check; an absolutely positioned child with a line outside the explicit
-grid passes it (the size estimate counts absolutely positioned children, so the implicit tracks exist) -/
+/-- the witness of `not_grid_PLCovers` fails the check; an absolutely positioned child with lines outside the implicit
+grid passes it (such a line is `None`: the `assert!` of `into_track_vec_index` is no longer reached); an absolutely
+positioned child whose lines overflow an `i16` fails it -/
 example : gridSafeB (gridStyle : Style Rat) [overflowItem] = false ∧
     gridSafeB (gridStyle : Style Rat) [C05.blockStyle,
-      { (absItem : Style Rat) with grid := { column := ⟨.line 1, .line 9⟩, row := ⟨.line (-4), .auto⟩ } }] = true := by
+      { (absItem : Style Rat) with grid := { column := ⟨.line 1, .line 9⟩, row := ⟨.line (-4), .auto⟩ } }] = true ∧
+    gridSafeB (gridStyle : Style Rat) [C05.blockStyle,
+      { (absItem : Style Rat) with grid := { column := ⟨.line 32767, .span 2⟩ } }] = false := by
   decide +kernel
 
 /-! ### a concrete quiet run on a grid tree (at `Rat`) -/
